@@ -122,6 +122,13 @@ class Evaluator:
             return self.call_fn(path, args, depth)
         raise Unknown("call of %s" % path)
 
+    def ev_lazy(self, n, env, depth=0):
+        """Arguments that cannot be evaluated become ("unknown", reason); only decisions on them fail."""
+        try:
+            return self.ev(n, env, depth)
+        except Unknown as e:
+            return ("unknown", str(e))
+
     def ev(self, n, env, depth=0):
         k = H.kind(n)
         if k == "Path":
@@ -157,7 +164,7 @@ class Evaluator:
             return ("tuple", [self.ev(e, env, depth) for e in n["es"]])
         if k == "Struct":
             names = [f["name"] for f in n["fields"]]
-            return ctor(n["path"].get("def"), [self.ev(f["e"], env, depth) for f in n["fields"]], names)
+            return ctor(n["path"].get("def"), [self.ev_lazy(f["e"], env, depth) for f in n["fields"]], names)
         if k == "Closure":
             return ("closure", n["params"], n["body"], dict(env))
         if k == "Block" or (k is None and "stmts" in n):
@@ -176,7 +183,7 @@ class Evaluator:
         if k == "Call":
             f = n["f"]
             fr = f.get("res", {}) if H.kind(f) == "Path" else {}
-            args = [self.ev(a, env, depth) for a in n["args"]]
+            args = [self.ev_lazy(a, env, depth) for a in n["args"]]
             if fr.get("dk", "").startswith("Ctor") or fr.get("dk") == "SelfCtor":
                 return ctor(fr.get("def"), args)
             if H.kind(f) == "Path" and "fn" in f:
@@ -185,14 +192,16 @@ class Evaluator:
             return self.apply(fv, args, depth)
         if k == "MethodCall":
             name = n["name"]
-            recv = self.ev(n["recv"], env, depth)
+            recv = self.ev_lazy(n["recv"], env, depth)
             fn = n.get("fn") or ""
+            if isinstance(recv, tuple) and recv[0] == "unknown" and fn not in self.facts.bodies():
+                raise Unknown(recv[1])
             if name in ("clone", "to_owned", "cloned", "copied"):
                 return recv
             if name in IDENTITY_METHODS and not (fn in self.facts.bodies()):
                 return recv
             if fn in self.facts.bodies():
-                args = [recv] + [self.ev(a, env, depth) for a in n["args"]]
+                args = [recv] + [self.ev_lazy(a, env, depth) for a in n["args"]]
                 return self.call_fn(fn, args, depth)
             if name == "map":
                 f = self.ev(n["args"][0], env, depth)
@@ -260,5 +269,7 @@ def show(v, short=True):
             return "(" + ", ".join(show(x, short) for x in v[1]) + ")"
         if v[0] == "lit":
             return str(v[1])
+        if v[0] == "unknown":
+            return "<?>"
         return "<%s>" % v[0]
     return str(v)
